@@ -169,7 +169,10 @@ impl RxMode {
                 // Since both sx126x and sx127x have a preamble-based timeout, we translate
                 // the additional millisecond delay into symbols and add it to the amount of preamble symbols.
                 const PREAMBLE_SYMBOLS: u16 = 13; // 12.25
-                let num_symbols = PREAMBLE_SYMBOLS + bb.delay_in_symbols(ms);
+                // delay_in_symbols() rounds down: add one symbol so that the window never ends
+                // before the preamble plus the requested delay (at SF7/125 kHz and 1 ms the
+                // truncated value was 0.23 ms short)
+                let num_symbols = PREAMBLE_SYMBOLS + bb.delay_in_symbols(ms) + 1;
                 RxMode::Single(num_symbols)
             }
         }
